@@ -460,6 +460,22 @@ func (fc *FnCtx) evalCall(x *ECall, env *Env) Val {
 			fc.fail("sliceoff of kind %d", v.K)
 		}
 		return intVal(v.C[1])
+	case "det":
+		// det("F", args...): the first result the deterministic function F returns for these arguments in the
+		// heap of the evaluation state (old(det(...)) = in the pre-state)
+		lit, ok := x.Args[0].(*ELit)
+		if !ok || lit.Kind != "string" {
+			fc.fail("det expects a function name string")
+		}
+		dc := fc.e.contractByName(lit.Val)
+		if dc == nil || !dc.Deterministic {
+			fc.fail("det(%s): no contract declaring the function deterministic", lit.Val)
+		}
+		var args []Val
+		for _, a := range x.Args[1:] {
+			args = append(args, fc.evalExpr(a, env))
+		}
+		return intVal(fc.detApp(dc.Name, 0, SInt, args, h))
 	case "callres":
 		// callres("F"): the result of the latest call to function F that dominates this point
 		lit, ok := x.Args[0].(*ELit)
